@@ -21,7 +21,7 @@ def movesOf (cols : List (Col α)) : List Mv := cols.filterMap colMove
 @[simp] theorem movesOf_left (x : α) : movesOf [(some x, (none : Option α))] = [.left] := rfl
 @[simp] theorem movesOf_nil : movesOf ([] : List (Col α)) = [] := rfl
 
-omit [Inhabited S] in
+omit [Inhabited S] [ScoreOps S] in
 theorem rescore_snoc (K : AffKernel S) (st : RS S) (ms : List Mv) (m : Mv) :
     rescore K st (ms ++ [m]) = rsStep K (rescore K st ms) m := by
   simp [rescore, List.foldl_append]
@@ -35,6 +35,7 @@ def ChooseOkL (K : AffKernel S) : Prop :=
   ∀ a m b, K.choose a m b = (a, 3) ∨ K.choose a m b = (m, 1) ∨ K.choose a m b = (b, 2) ∨
     K.choose a m b = (zero, 0)
 
+omit [ScoreOps S] in
 theorem T_inner_aff (K : AffKernel S) (M i j : Nat) (hj : j < M) :
     T K.toFill M (i+1) (j+1) =
       K.choose (K.candUp (i+1) (j+1) (T K.toFill M i (j+1)))
@@ -42,6 +43,7 @@ theorem T_inner_aff (K : AffKernel S) (M i j : Nat) (hj : j < M) :
         (K.candLeft (i+1) (j+1) (T K.toFill M (i+1) j)) := by
   rw [T_inner _ _ _ _ hj]; rfl
 
+omit [ScoreOps S] in
 theorem rescore_tbGlobal (K : AffKernel S) (hK : ChooseOkG K)
     (hrow : ∀ j c, (K.row0 j c).2 ≠ 3 ∧ (K.row0 j c).2 ≠ 1) (hcol : ∀ i c, (K.col0 i c).2 = 3)
     (a b : List α) (N M : Nat) (hN : N ≤ b.length) (hM : M ≤ a.length)
